@@ -1,6 +1,8 @@
 import HdVerif.Proofs.SRContentSeq
 import HdVerif.Proofs.SRSeqHeap
 import HdVerif.Proofs.SRSeqTie
+import HdVerif.Proofs.SRSeqSpec
+import HdVerif.Proofs.SRSeqPool
 /-! # C14  A content sequence and its name index never disagree
 
 Property theorems only.  They are about the executable model `Model/SRContentSeq.lean` of
@@ -367,6 +369,122 @@ theorem tie_index_removal_by_identity (lut : Lut) (x : Item) :
     ∀ p ∈ Gen.csRemoveByIdentity, lutRemove lut x = SRSeqTie.lutRemoveGen p.2 lut x :=
   SRSeqTie.lutRemove_eq_gen lut x
 
+/-! ## Refinement: the sequence IS a list, its name index is derived (round 2)
+
+`Model/SRSeqSpec.lean` is the property's own reading of a content sequence: a plain list under the relationship-type
+rule, no shadow state; `specFn` gives the list effect and the refusal of every operation, `derivedIndex l n` the items
+of a name.  The model of the class — whose index maintenance is the program regenerated from the current source
+(`mutators_are_regenerated_programs`) — refines it: step by step, for whole histories, refused operations and the
+partial effect of `extend` included.  Induction over arbitrary operation sequences; no bounds. -/
+section Refinement
+open HdVerif.SRSeqSpec HdVerif.SRSeqSpecLemmas
+
+/-- **One operation = one step of the list machine** (accepted or refused), the flags stay, and afterwards the index is
+again the index derived from the list. -/
+theorem refines_list_machine {s : Seq} (h : Reachable s) (op : Op) :
+    SpecStep s.isRoot s.isSr s.items op (step s op).1.items (step s op).2 ∧
+    (step s op).1.isRoot = s.isRoot ∧ (step s op).1.isSr = s.isSr ∧
+    ∀ n, ((step s op).1.lut n).Perm (derivedIndex (step s op).1.items n) :=
+  ⟨step_refines h.wf op, (step_wf h.wf op).2.1, (step_wf h.wf op).2.2, fun n => (step_wf h.wf op).1.inv n⟩
+
+/-- **Whole histories**: after ANY finite history (every operation kind, refused ones included) the list is one the
+list machine reaches by the same history, and the index is the one derived from that list. -/
+theorem history_refines_list_machine {s : Seq} (h : Reachable s) (ops : List Op) :
+    SpecRun s.isRoot s.isSr s.items ops (run s ops).items ∧
+    ∀ n, ((run s ops).lut n).Perm (derivedIndex (run s ops).items n) :=
+  ⟨run_refines h.wf ops, fun n => (run_wf h.wf ops).1.inv n⟩
+
+/-- **Every query is a function of the list alone** on every reachable sequence: `index`, `in`, `get_nodes` exactly,
+`find` up to the order of the items (the property fixes membership and multiplicity). -/
+theorem queries_are_functions_of_the_list {s : Seq} (h : Reachable s) :
+    (∀ x, index s x = specIndex s.items x) ∧ (∀ x, contains s x = specContains s.items x) ∧
+    (∃ r, getNodes s = .ok r ∧ r.items = specNodes s.items) ∧
+    (∀ n, ∃ r, find s n = .ok r ∧ r.items.Perm (derivedIndex s.items n)) := by
+  refine ⟨fun x => index_spec h.wf.inv x, fun x => contains_spec h.wf.inv x, ?_, fun n => find_exact h n⟩
+  obtain ⟨r, h1, h2, _⟩ := getNodes_spec h.wf
+  exact ⟨r, h1, h2⟩
+
+/-- **No partial update**: an operation that is refused — rule broken, index out of range, slice and values of
+different length, step 0, absent item, not a content item, position not an int — leaves list AND index exactly as
+they were; only the `extend` family keeps what it appended before the offender (`extend_enforces`). -/
+theorem refused_operation_leaves_no_trace {s : Seq} (h : Reachable s) (op : Op) (hop : partialOk op = false)
+    (he : (step s op).2 ≠ none) : (step s op).1 = s :=
+  refused_leaves_state h.wf op hop he
+
+/-- **What is not a content item never enters**: the `isinstance` arm of the four REGENERATED decision trees is a
+TypeError whatever the flags, and the model's operations with such an argument change nothing (`extend` / `+=` keep the
+content items offered before it).  A plain `Dataset` that merely looks like a content item is such an argument. -/
+theorem non_items_are_refused (s : Seq) (b : Bool) :
+    otherRefusal (Gen.csAppendCheck s.isRoot s.isSr false b) = some .type ∧
+    otherRefusal (Gen.csInsertCheck s.isRoot s.isSr false b) = some .type ∧
+    otherRefusal (Gen.csSetitemCheck s.isRoot s.isSr false b) = some .type ∧
+    (∀ c, Gen.csCtorCheck s.isRoot s.isSr false b c = .error .type) ∧
+    step s .appendOther = (s, some .type) ∧ step s .insertOther = (s, some .type) ∧
+    (∀ pre, (step s (.setOther pre)).1 = s ∧ (step s (.setOther pre)).2.isSome = true) ∧
+    (∀ pre, (step s (.extendOther pre)).1 = (extend s pre).1 ∧ (step s (.extendOther pre)).2.isSome = true) := by
+  obtain ⟨h1, h2, h3, h4⟩ := other_refused s.isRoot s.isSr b
+  refine ⟨h1, h2, h3, h4, ?_, ?_, fun pre => ?_, fun pre => ?_⟩
+  · simp only [step, appendOther, (other_refused s.isRoot s.isSr false).1]
+  · simp only [step, insertOther, (other_refused s.isRoot s.isSr false).2.1]
+  · simp only [step, setOther]
+    cases checkAll (setitemCheck s) pre
+    · exact ⟨rfl, rfl⟩
+    · exact ⟨rfl, by simp [(other_refused s.isRoot s.isSr false).2.2.1]⟩
+  · simp only [step, extendOther]
+    cases hs : extend s pre with
+    | mk s1 e =>
+      cases e with
+      | none => exact ⟨rfl, by simp [appendOther, (other_refused s1.isRoot s1.isSr false).1]⟩
+      | some e => exact ⟨rfl, rfl⟩
+
+end Refinement
+
+/-! ## Copies: `copy.copy`, `copy.deepcopy`, pickling (round 2)
+
+`Model/SRSeqPool.lean`: the sequences that exist (slots) and the names a history uses for them (members).  The class
+defines no copy hooks (`method_set_pinned`), so a shallow copy is a second name for the same list and index, a deep
+copy / pickle round trip an equal sequence of new objects.  Tie: pool histories of the correspondence (CPython's copy
+protocol is not /repo code). -/
+section Copies
+open HdVerif.SRSeqPool HdVerif.SRSeqPoolLemmas
+
+/-- **Every sequence of every pool history is consistent**: start from any reachable sequence, run ANY history of
+operations on any member, `clone`, `attach`, `copy.copy`, `copy.deepcopy` / pickling — every sequence behind every
+name is a reachable one, so all theorems above hold of it at every moment. -/
+theorem pool_history_every_member_consistent {s0 : Seq} (h : Reachable s0) (ops : List APoolOp) :
+    ∀ s ∈ view (apoolRun (start s0) ops), Reachable s ∧ ∀ n, (s.lut n).Perm (s.items.filter (fun it => it.name == n)) :=
+  fun s hs =>
+    have hr := (apoolRun_ok (ok_start h) ops).1 s (mem_view hs)
+    ⟨hr, fun n => index_refines_list hr n⟩
+
+/-- **A shallow copy is a second name for the same sequence**: `copy.copy` adds a name for the slot and no sequence;
+an operation through either name (one that does not hand back a new object) lands on the one slot — whoever points
+at it sees the new list and index — and on no other. -/
+theorem shallow_copy_is_a_second_name {p : APool} {a k : Nat} {s : Seq} (ha : slotOf p a = some k)
+    (hs : p.slots[k]? = some s) :
+    (apoolStep p (.copy a)).1.slots = p.slots ∧ (apoolStep p (.copy a)).1.members = putMember p.members k ∧
+    ∀ op, rebinds op = false →
+      (apoolStep p (.base (.on a op))).1.members = p.members ∧
+      (apoolStep p (.base (.on a op))).1.slots[k]? = some (step s op).1 ∧
+      (apoolStep p (.base (.on a op))).2 = (step s op).2 ∧
+      ∀ j, j ≠ k → (apoolStep p (.base (.on a op))).1.slots[j]? = p.slots[j]? := by
+  refine ⟨?_, ?_, fun op hop => on_member_updates_slot op ha hs hop⟩ <;> simp only [apoolStep, ha]
+
+/-- **A deep copy (or pickle round trip) answers like the original and is made of its copies**: same flags, the list
+and every `find` / `get_nodes` result are the copies in the same order, `index` and `in` (which compare with `==`)
+are unchanged; it lives in a slot of its own, so by `shallow_copy_is_a_second_name` (last clause) no operation on
+another sequence reaches it. -/
+theorem deep_copy_answers_like_the_original {s : Seq} (h : Reachable s) (f : Nat → Nat) :
+    Reachable (relabel f s) ∧ (relabel f s).isRoot = s.isRoot ∧ (relabel f s).isSr = s.isSr ∧
+    (relabel f s).items = s.items.map (relabelItem f) ∧
+    (∀ x, index (relabel f s) x = index s x) ∧ (∀ x, contains (relabel f s) x = contains s x) ∧
+    (∀ n, ∃ r r', find s n = .ok r ∧ find (relabel f s) n = .ok r' ∧ r'.items = r.items.map (relabelItem f)) ∧
+    (∃ r r', getNodes s = .ok r ∧ getNodes (relabel f s) = .ok r' ∧ r'.items = r.items.map (relabelItem f)) :=
+  ⟨Reachable.copied f h, rfl, rfl, rfl, index_relabel f s, contains_relabel f s, find_relabel h.wf f,
+   getNodes_relabel h.wf f⟩
+
+end Copies
+
 /-! ## Non-vacuity: a concrete history with colliding names on a non-root SR sequence
 (construct [a0, b1], insert c0 in front, extend [d1, e0], assign position 1, delete a slice, reverse). -/
 
@@ -397,5 +515,29 @@ example : Gen.csRemoveByIdentity ≠ [] ∧
       (fun l => (l 0).map (·.obj)) = some [1] ∧
     (SRSeqTie.lutRemoveGen false (lutAddAll emptyLut [it 0 1, { (it 0 1) with obj := 9 }]) { (it 0 1) with obj := 9 }).toOption.map
       (fun l => (l 0).map (·.obj)) = some [9] := by decide
+
+/-! non-vacuity of the round-2 theorems -/
+section Round2Examples
+open HdVerif.SRSeqSpec HdVerif.SRSeqSpecLemmas HdVerif.SRSeqPool
+
+/-- the list machine on the history above: same list, and it refuses the same append -/
+example : specFn false true [it 0 1, it 1 2] (.insert 0 (it 0 3)) = some ([it 0 3, it 0 1, it 1 2], none) := by decide
+example : specFn false true [it 0 1] (.extend [it 1 4, { (it 0 7) with rel := none }, it 0 5]) = some ([it 0 1, it 1 4], some .attribute) := by
+  decide
+example : (step s0 (.extend [it 1 4, { (it 0 7) with rel := none }, it 0 5])).1.items.map (·.uid) = [1, 2, 4] ∧
+    (step s0 (.extend [it 1 4, { (it 0 7) with rel := none }, it 0 5])).2 = some .attribute := by decide
+/-- refused without a trace: an out-of-range assignment, an extended slice of the wrong length, a non-item -/
+example : (step s0 (.setItem 5 (it 0 9))).2 = some .index ∧ partialOk (.setItem 5 (it 0 9)) = false := by decide
+example : (step s0 (.setSlice none none (some 2) [it 0 8, it 0 9])).2 = some .value := by decide
+example : (step s0 (.setOther [it 0 8])).2 = some .type ∧ (step s0 (.extendOther [it 0 8])).1.items.map (·.uid) = [1, 2, 8] := by
+  decide
+/-- a pool history: a shallow copy sees the append made through the other name, the deep copy made before does not -/
+example :
+    let p := apoolRun (start s0) [.deepcopy 0, .copy 0, .base (.on 0 (.append (it 0 3)))]
+    (view p).map (fun s => s.items.map (·.uid)) = [[1, 2, 3], [1, 2], [1, 2, 3]] ∧
+    (view p).map (fun s => (s.lut 0).map (·.obj)) = [[1, 3], [2000001], [1, 3]] := by decide
+example : Reachable s0 := Reachable.ctor (items := [it 0 1, it 1 2]) (r := false) (sr := true) rfl
+
+end Round2Examples
 
 end HdVerif.C14
